@@ -25,7 +25,7 @@ NUM_CONF_DEF = -1
 FIRST_DEF = -1
 POOL_MULTIPLIER_DEF = 1
 RMSD_CUTOFF_DEF = 0.5
-MAX_ENERGY_DIFF_DEF = -1.0
+MAX_ENERGY_DIFF_DEF = None
 FORCEFIELD_DEF = "uff"
 SEED_DEF = -1
 
